@@ -62,6 +62,7 @@ func TestC16_LiveErrTail(t *testing.T) {
 	twins(t)
 	c := ev.New("C16", "live-errtail", "exploration")
 	t.Cleanup(c.Flush)
+	t.Cleanup(func() { drainExcluded(c) })
 	c.Rule("[OUTPUT json,] 1-8 valid keyspace/PING/ECHO commands (RESP+telnet, native, or mixed; a SET is forced into half of the cases) followed by one malformed frame of the catalogue (RESP/telnet/native/HTTP framing errors) and, in a quarter of the cases, trailing bytes; written uncut to twin A and to server B cut exactly in front of the malformed frame (30%), at one random point, at up to 12 points, or byte-at-a-time. Oracle: every valid command answered exactly once and in order (count from the stream model), then exactly one error line iff the last executed command came over RESP/telnet, nothing else, connection closed; canonical replies identical to the uncut run; the datasets of A and B identical afterwards (writes in front of the malformed frame are applied under every segmentation). Non-trivial: at least one cut at or before the malformed frame; distinct by (kind, malformed frame, cuts, prefix length, has write).")
 	// regression probe (live): SET + empty HTTP request in one segment vs cut in front of the request
 	for _, frame := range []string{"GET / HTTP/1.1\r\n\r\n", "POST / HTTP/1.1\r\nContent-Length: 0\r\n\r\n"} {
@@ -162,6 +163,7 @@ func TestC16_LiveErrTail(t *testing.T) {
 func TestC16_SegErrTail(t *testing.T) {
 	c := ev.New("C16", "seg-errtail", "exploration")
 	t.Cleanup(c.Flush)
+	t.Cleanup(func() { drainExcluded(c) })
 	c.Rule("1-8 valid commands in RESP/telnet/native/HTTP/WebSocket encodings followed by ONE malformed frame from a catalogue of 26 (empty HTTP requests `GET /`, `POST /` with Content-Length 0, blank-only paths, non-numeric, negative, overflowing or unterminated RESP bulk/multibulk headers, wrong type byte, unbalanced telnet quotes, bad native lengths, malformed HTTP request lines) and optional trailing bytes; ground truth: PipelineReader.ReadMessages delivers exactly the messages of the valid commands and then the catalogue's error text — uncut, under EVERY 2-way cut, byte-at-a-time and 3 random k-way cuts. First every catalogue entry is checked alone. Non-trivial: a cut at or before the start of the malformed frame with at least one valid command in front of it in the same read of the uncut run; distinct by (malformed frame, protocol of the command in front, cut region, prefix length).")
 	// the catalogue itself
 	for _, bf := range badFrames {
